@@ -850,7 +850,7 @@ func nttConjugateInvariantLazyUnrolled16(p1, p2 []uint64, N int, Q, MRedConstant
 	for m := 2; m < 2*N; m <<= 1 {
 
 		/* #nosec G115 -- m cannot be negative */
-		reduce = (bits.Len64(uint64(m))&1 == 1)
+		reduce = (bits.Len64(uint64(m))&1 == 1) || m == N
 
 		t >>= 1
 		h = m >> 1
